@@ -1334,4 +1334,410 @@ theorem no_deadlock (T : Table) (f : FSys) (hinv : FInv f) (h1 : f.mpc ≠ .inRe
       obtain ⟨i, hi⟩ := List.getElem?_of_mem hc
       exact ⟨i, crit_cb_enabled f i c.1 c.2 hi hcc⟩
 
+/-! ### the converse: every atomic step is a schedule of statements (so the atomic system has no
+    behaviour that the statement-grained one lacks) -/
+
+/-- Quiescent: nobody holds the mutex, the main goroutine is at the `select`, blocked in the read, or
+    finished, and every callback goroutine has either not locked yet or has returned. -/
+structure Quiet (f : FSys) : Prop where
+  mu : f.mutex = none
+  pc : f.mpc = .atSelect ∨ f.mpc = .inRead ∨ f.mpc = .done
+  cbs : ∀ c ∈ f.cbs, c.2 = .started ∨ c.2 = .gone
+
+theorem Quiet.nocrit {f : FSys} (q : Quiet f) : ∀ c ∈ f.cbs, crit c.2 = false := by
+  intro c hc; rcases q.cbs c hc with h | h <;> rw [h] <;> rfl
+
+theorem Quiet.nMid {f : FSys} (q : Quiet f) : nMid f.cbs = 0 := by
+  apply List.countP_eq_zero.mpr
+  intro c hc; rcases q.cbs c hc with h | h <;> rw [h] <;> simp [mid]
+
+theorem Quiet.holds {f : FSys} (q : Quiet f) : holdsMain f.mpc = false := by
+  rcases q.pc with h | h | h <;> rw [h] <;> rfl
+
+/-- The atomic state a quiescent state stands for (no slack in `armed` here). -/
+def absQ (T : Table) (f : FSys) : Sys := abs T f f.armed.isSome
+
+theorem absQ_eq (T : Table) (f : FSys) (q : Quiet f) :
+    absQ T f = ⟨f.ps, absPcNB f.mpc, f.armed.isSome, f.closeReq, decide (absPcNB f.mpc = .done),
+      decide (0 < nFresh f.escGen f.cbs), nStale f.escGen f.cbs⟩ := by
+  have := (abs_nb T f f.armed.isSome q.holds).1
+  rw [absQ, this, q.nMid]; simp
+
+theorem run_CInv (T : Table) (fls : List FLabel) (f0 f : FSys) (out : List Seq) (h0 : CInv f0)
+    (h : FSys.run T f0 fls = some (f, out)) : CInv f := by
+  induction fls generalizing f0 out with
+  | nil => simp only [FSys.run, Option.some.injEq, Prod.mk.injEq] at h; obtain ⟨rfl, _⟩ := h; exact h0
+  | cons l fls ih =>
+    simp only [FSys.run] at h
+    cases h1 : FSys.step T f0 l with
+    | none => simp [h1] at h
+    | some r1 =>
+      obtain ⟨f1, o1⟩ := r1
+      simp only [h1] at h
+      cases h2 : FSys.run T f1 fls with
+      | none => simp [h2] at h
+      | some r2 =>
+        obtain ⟨f2, o2⟩ := r2
+        simp only [h2, Option.some.injEq, Prod.mk.injEq] at h
+        obtain ⟨rfl, _⟩ := h
+        exact ih f1 o2 (step_CInv T f0 f1 l o1 h0 h1) h2
+
+/-- What a step of the converse simulation has to deliver. -/
+def Conv (T : Table) (f : FSys) (a' : Sys) (o : List Seq) : Prop :=
+  ∃ fls f', FSys.run T f fls = some (f', o) ∧ Quiet f' ∧ a' = absQ T f'
+
+theorem conv_closeSig (T : Table) (f : FSys) (q : Quiet f) :
+    Conv T f { absQ T f with closeReq := true } [] := by
+  have q' : Quiet { f with closeReq := true } := ⟨q.mu, q.pc, q.cbs⟩
+  refine ⟨[.closeSig], { f with closeReq := true }, by simp [FSys.run, FSys.step], q', ?_⟩
+  rw [absQ_eq T f q, absQ_eq T _ q']
+
+theorem conv_enterRead (T : Table) (f : FSys) (q : Quiet f) (hpc : f.mpc = .atSelect) (hc : f.closeReq = false) :
+    Conv T f { absQ T f with pc := .inRead } [] := by
+  have q' : Quiet { f with mpc := .inRead } := ⟨q.mu, Or.inr (Or.inl rfl), q.cbs⟩
+  refine ⟨[.main], { f with mpc := .inRead }, by simp [FSys.run, FSys.step, mainStep, hpc, hc], q', ?_⟩
+  rw [absQ_eq T f q, absQ_eq T _ q']
+  simp [hpc, absPcNB]
+
+/-- Outdating, at a quiescent state. -/
+theorem quiet_outdate (f : FSys) (hinv : FInv f) (q : Quiet f) :
+    nStale (f.escGen + 1) f.cbs = nStale f.escGen f.cbs + (if decide (0 < nFresh f.escGen f.cbs) = true then 1 else 0) ∧
+    nFresh (f.escGen + 1) f.cbs = 0 ∧ nStale (f.escGen + 1 + 1) f.cbs = nStale (f.escGen + 1) f.cbs ∧
+    nFresh (f.escGen + 1 + 1) f.cbs = 0 := by
+  obtain ⟨hst, hfr⟩ := outdate_count f.escGen f.cbs (fun c hc => (hinv.g1 c hc).1) q.nocrit
+  obtain ⟨hst2, hfr2⟩ := outdate_count (f.escGen + 1) f.cbs (fun c hc => Nat.le_succ_of_le (hinv.g1 c hc).1) q.nocrit
+  have hu1 := hinv.u1
+  refine ⟨?_, hfr, by omega, hfr2⟩
+  rw [hst]
+  by_cases h : 0 < nFresh f.escGen f.cbs
+  · simp [h]; omega
+  · simp [h]; omega
+
+theorem conv_read_go (T : Table) (f : FSys) (hinv : FInv f) (q : Quiet f) (hpc : f.mpc = .inRead) (i : Inp)
+    (hstop : stops T f.ps i = false) :
+    Conv T f { (absQ T f).outdate with ps := (VaxisModel.Model.Parser.step T f.ps i).st, pc := .atSelect, armed := arms T i }
+      (VaxisModel.Model.Parser.step T f.ps i).out := by
+  let f' : FSys := { f with ps := (VaxisModel.Model.Parser.step T f.ps i).st, escGen := f.escGen + 1, mpc := .atSelect,
+                            armed := if arms T i then some (f.escGen + 1) else none }
+  have q' : Quiet f' := ⟨q.mu, Or.inl rfl, q.cbs⟩
+  obtain ⟨h1, h2, _, _⟩ := quiet_outdate f hinv q
+  refine ⟨[.readRet i, .main, .main, .main, .main, .main], f', ?_, q', ?_⟩
+  · simp [FSys.run, FSys.step, mainStep, hpc, q.mu, hstop, f']
+  · rw [absQ_eq T f q, absQ_eq T f' q']
+    simp only [f', Sys.outdate, hpc, absPcNB, h1, h2]
+    cases arms T i <;> simp
+
+theorem conv_read_stop (T : Table) (f : FSys) (hinv : FInv f) (q : Quiet f) (hpc : f.mpc = .inRead) (i : Inp)
+    (hstop : stops T f.ps i = true) (harm : arms T i = false) :
+    Conv T f (finishing (absQ T f) (VaxisModel.Model.Parser.step T f.ps i).st (VaxisModel.Model.Parser.step T f.ps i).out).1
+      ((VaxisModel.Model.Parser.step T f.ps i).out ++ [.eof]) := by
+  let f' : FSys := { f with ps := (VaxisModel.Model.Parser.step T f.ps i).st, escGen := f.escGen + 1 + 1, mpc := .done,
+                            armed := none, chanClosed := true }
+  have q' : Quiet f' := ⟨q.mu, Or.inr (Or.inr rfl), q.cbs⟩
+  obtain ⟨h1, h2, h3, h4⟩ := quiet_outdate f hinv q
+  refine ⟨[.readRet i, .main, .main, .main, .main, .main, .main, .main, .main, .main, .main, .main], f', ?_, q', ?_⟩
+  · simp [FSys.run, FSys.step, mainStep, hpc, q.mu, hstop, harm, f']
+  · rw [absQ_eq T f q, absQ_eq T f' q']
+    simp [f', finishing, Sys.outdate, absPcNB, h1, h3, h4]
+
+theorem conv_breakClose (T : Table) (f : FSys) (hinv : FInv f) (q : Quiet f) (hpc : f.mpc = .atSelect)
+    (hc : f.closeReq = true) :
+    Conv T f (finishing (absQ T f) f.ps []).1 [.eof] := by
+  let f' : FSys := { f with escGen := f.escGen + 1, mpc := .done, armed := none, chanClosed := true }
+  have q' : Quiet f' := ⟨q.mu, Or.inr (Or.inr rfl), q.cbs⟩
+  obtain ⟨h1, h2, h3, h4⟩ := quiet_outdate f hinv q
+  refine ⟨[.main, .main, .main, .main, .main, .main, .main], f', ?_, q', ?_⟩
+  · simp [FSys.run, FSys.step, mainStep, hpc, q.mu, hc, f']
+  · rw [absQ_eq T f q, absQ_eq T f' q']
+    simp [f', finishing, Sys.outdate, absPcNB, h1, h2]
+
+theorem getElem?_set_self_of {α} {l : List α} {k : Nat} {y : α} (x : α) (h : l[k]? = some y) :
+    (l.set k x)[k]? = some x := by
+  have hlt : k < l.length := (List.getElem?_eq_some_iff.mp h).1
+  simp [hlt]
+
+/-- A callback whose generation is current runs to completion from a quiescent state. -/
+theorem cb_run_fresh (T : Table) (f : FSys) (k : Nat) (hk : f.cbs[k]? = some (f.escGen, .started)) (hm : f.mutex = none) :
+    FSys.run T f [.cb k, .cb k, .cb k, .cb k, .cb k, .cb k] =
+      some ({ f with ps := { f.ps with state := .ground, ignoreST := false }, cbs := f.cbs.set k (f.escGen, .gone) },
+            [if f.chanClosed then .panic else .c0 0x1B]) := by
+  have e1 := getElem?_set_self_of (f.escGen, CbPc.locked) hk
+  have e2 := getElem?_set_self_of (f.escGen, CbPc.passed) hk
+  have e3 := getElem?_set_self_of (f.escGen, CbPc.emitted) hk
+  have e4 := getElem?_set_self_of (f.escGen, CbPc.stateSet) hk
+  have e5 := getElem?_set_self_of (f.escGen, CbPc.stSet) hk
+  simp [FSys.run, FSys.step, cbStep, hk, hm, e1, e2, e3, e4, e5, List.set_set]
+
+/-- An out-of-date callback: Lock, failed check, Unlock. -/
+theorem cb_run_stale (T : Table) (f : FSys) (k g : Nat) (hk : f.cbs[k]? = some (g, .started)) (hm : f.mutex = none)
+    (hg : g ≠ f.escGen) :
+    FSys.run T f [.cb k, .cb k, .cb k] = some ({ f with cbs := f.cbs.set k (g, .gone) }, []) := by
+  have e1 := getElem?_set_self_of (g, CbPc.locked) hk
+  have e2 := getElem?_set_self_of (g, CbPc.failed) hk
+  simp [FSys.run, FSys.step, cbStep, hk, hm, e1, e2, hg, List.set_set]
+theorem getElem?_concat_self {α} (l : List α) (x : α) : (l ++ [x])[l.length]? = some x := by simp
+
+theorem set_concat_self {α} (l : List α) (x y : α) : (l ++ [x]).set l.length y = l ++ [y] := by
+  induction l with
+  | nil => rfl
+  | cons a l ih => simp [ih]
+
+theorem quiet_set (f : FSys) (q : Quiet f) (k g : Nat) :
+    ∀ c ∈ f.cbs.set k (g, .gone), c.2 = .started ∨ c.2 = .gone :=
+  forall_set _ _ _ _ q.cbs (Or.inr rfl)
+
+theorem conv_timerExpire (T : Table) (f : FSys) (hinv : FInv f) (q : Quiet f) (ha : f.armed.isSome = true) :
+    Conv T f { absQ T f with armed := false, fresh := true } [] := by
+  cases hg : f.armed with
+  | none => rw [hg] at ha; cases ha
+  | some g =>
+    have hge := (hinv.g2 g hg).1
+    let f' : FSys := { f with armed := none, cbs := f.cbs ++ [(g, .started)] }
+    have q' : Quiet f' := ⟨q.mu, q.pc, fun c hc => by
+      rcases List.mem_append.mp hc with h | h
+      · exact q.cbs c h
+      · simp only [List.mem_singleton] at h; subst h; exact Or.inl rfl⟩
+    refine ⟨[.expire], f', by simp [FSys.run, FSys.step, hg, f'], q', ?_⟩
+    rw [absQ_eq T f q, absQ_eq T f' q']
+    have hn2 : nStale f.escGen (f.cbs ++ [(g, .started)]) = nStale f.escGen f.cbs := by
+      simp [nStale, List.countP_append, hge]
+    have hn3 : 0 < nFresh f.escGen (f.cbs ++ [(g, .started)]) := by
+      simp [nFresh, List.countP_append, hge, pre3]
+    simp [f', hn2, hn3]
+
+theorem conv_timerFire (T : Table) (f : FSys) (hinv : FInv f) (q : Quiet f) (ha : f.armed.isSome = true)
+    (hpc : f.mpc = .inRead) :
+    Conv T f { absQ T f with ps := timerReset true (absQ T f).ps, armed := false } [.c0 0x1B] := by
+  cases hg : f.armed with
+  | none => rw [hg] at ha; cases ha
+  | some g =>
+    have hge := (hinv.g2 g hg).1
+    subst hge
+    have hcc : f.chanClosed = false := by
+      cases hc : f.chanClosed with
+      | false => rfl
+      | true => have := hinv.c1 hc; rw [hpc] at this; cases this
+    let f1 : FSys := { f with armed := none, cbs := f.cbs ++ [(f.escGen, .started)] }
+    let f' : FSys := { f with ps := { f.ps with state := .ground, ignoreST := false }, armed := none,
+                              cbs := f.cbs ++ [(f.escGen, .gone)] }
+    have q' : Quiet f' := ⟨q.mu, q.pc, fun c hc => by
+      rcases List.mem_append.mp hc with h | h
+      · exact q.cbs c h
+      · simp only [List.mem_singleton] at h; subst h; exact Or.inr rfl⟩
+    have hrun := cb_run_fresh T f1 f.cbs.length (getElem?_concat_self _ _) q.mu
+    refine ⟨[.expire, .cb f.cbs.length, .cb f.cbs.length, .cb f.cbs.length, .cb f.cbs.length, .cb f.cbs.length,
+      .cb f.cbs.length], f', ?_, q', ?_⟩
+    · rw [FSys.run]
+      simp only [FSys.step, hg]
+      rw [show ({ f with armed := none, cbs := f.cbs ++ [(f.escGen, CbPc.started)] } : FSys) = f1 from rfl, hrun]
+      simp [f1, f', hcc]
+    · rw [absQ_eq T f q, absQ_eq T f' q']
+      have hn1 : nFresh f.escGen (f.cbs ++ [(f.escGen, .gone)]) = nFresh f.escGen f.cbs := by
+        simp [nFresh, List.countP_append, pre3]
+      have hn2 : nStale f.escGen (f.cbs ++ [(f.escGen, .gone)]) = nStale f.escGen f.cbs := by
+        simp [nStale, List.countP_append]
+      simp [f', hn1, hn2, timerReset]
+
+theorem conv_cbRun_fresh (T : Table) (f : FSys) (hinv : FInv f) (q : Quiet f)
+    (hf : 0 < nFresh f.escGen f.cbs) :
+    Conv T f { absQ T f with ps := timerReset true (absQ T f).ps, fresh := false } [.c0 0x1B] := by
+  obtain ⟨c, hc, hp⟩ := List.countP_pos_iff.mp hf
+  obtain ⟨g, pc⟩ := c
+  simp only [Bool.and_eq_true, decide_eq_true_eq] at hp
+  obtain ⟨hg, hp3⟩ := hp
+  subst hg
+  have hst : pc = .started := by
+    rcases q.cbs _ hc with h | h
+    · exact h
+    · simp only at h; subst h; cases hp3
+  subst hst
+  obtain ⟨k, hk⟩ := List.getElem?_of_mem hc
+  have hns : strict f.mpc = false := by
+    cases hs : strict f.mpc with
+    | false => rfl
+    | true => have := (hinv.g1 _ hc).2 hs; simp only at this; omega
+  have hcc : f.chanClosed = false := by
+    cases hcl : f.chanClosed with
+    | false => rfl
+    | true => have := hinv.c1 hcl; rw [this] at hns; cases hns
+  let f' : FSys := { f with ps := { f.ps with state := .ground, ignoreST := false }, cbs := f.cbs.set k (f.escGen, .gone) }
+  have q' : Quiet f' := ⟨q.mu, q.pc, quiet_set f q k _⟩
+  refine ⟨[.cb k, .cb k, .cb k, .cb k, .cb k, .cb k], f', ?_, q', ?_⟩
+  · rw [cb_run_fresh T f k hk q.mu]; simp [f', hcc]
+  · rw [absQ_eq T f q, absQ_eq T f' q']
+    have s1 := nFresh_set f.escGen f.cbs k f.escGen _ .gone hk
+    have s2 := nStale_set f.escGen f.cbs k f.escGen _ .gone hk
+    have hu1 := hinv.u1
+    simp [pre3, pre2] at s1 s2
+    have : nFresh f.escGen (f.cbs.set k (f.escGen, .gone)) = 0 := by omega
+    simp [f', this, s2, timerReset]
+
+theorem conv_cbRun_stale (T : Table) (f : FSys) (q : Quiet f) (hs : 0 < nStale f.escGen f.cbs) :
+    Conv T f { absQ T f with stale := (absQ T f).stale - 1 } [] := by
+  obtain ⟨c, hc, hp⟩ := List.countP_pos_iff.mp hs
+  obtain ⟨g, pc⟩ := c
+  simp only [Bool.and_eq_true, Bool.not_eq_true', decide_eq_false_iff_not] at hp
+  obtain ⟨hg, hp2⟩ := hp
+  have hst : pc = .started := by
+    rcases q.cbs _ hc with h | h
+    · exact h
+    · simp only at h; subst h; cases hp2
+  subst hst
+  obtain ⟨k, hk⟩ := List.getElem?_of_mem hc
+  let f' : FSys := { f with cbs := f.cbs.set k (g, .gone) }
+  have q' : Quiet f' := ⟨q.mu, q.pc, quiet_set f q k _⟩
+  refine ⟨[.cb k, .cb k, .cb k], f', cb_run_stale T f k g hk q.mu hg, q', ?_⟩
+  rw [absQ_eq T f q, absQ_eq T f' q']
+  have s1 := nFresh_set f.escGen f.cbs k g _ .gone hk
+  have s2 := nStale_set f.escGen f.cbs k g _ .gone hk
+  simp [pre3, pre2, hg] at s1 s2
+  simp [f', s1, ← s2]
+
+theorem absQ_fields (T : Table) (f : FSys) (q : Quiet f) :
+    (absQ T f).ps = f.ps ∧ (absQ T f).armed = f.armed.isSome ∧ (absQ T f).closeReq = f.closeReq ∧
+    (absQ T f).fresh = decide (0 < nFresh f.escGen f.cbs) ∧ (absQ T f).stale = nStale f.escGen f.cbs ∧
+    ((absQ T f).pc = .atSelect → f.mpc = .atSelect) ∧ ((absQ T f).pc = .inRead → f.mpc = .inRead) := by
+  rw [absQ_eq T f q]
+  refine ⟨rfl, rfl, rfl, rfl, rfl, ?_, ?_⟩
+  · rcases q.pc with h | h | h <;> simp [h, absPcNB]
+  · rcases q.pc with h | h | h <;> simp [h, absPcNB]
+
+/-- **Every atomic step is a schedule of statements** between quiescent states. -/
+theorem conv_step (T : Table) (hT : TimerOk T) (f : FSys) (hinv : FInv f) (q : Quiet f) (l : Label)
+    (a' : Sys) (o : List Seq) (h : Sys.step T Cfg.fixed (absQ T f) l = some (a', o)) : Conv T f a' o := by
+  obtain ⟨eps, ear, ecl, efr, est, epa, epi⟩ := absQ_fields T f q
+  cases l with
+  | closeSig =>
+    simp only [Sys.step, Option.some.injEq, Prod.mk.injEq] at h; obtain ⟨rfl, rfl⟩ := h
+    exact conv_closeSig T f q
+  | enterRead =>
+    simp only [Sys.step] at h
+    split at h
+    · rename_i hc
+      simp only [Option.some.injEq, Prod.mk.injEq] at h; obtain ⟨rfl, rfl⟩ := h
+      exact conv_enterRead T f q (epa hc.1) (by rw [← ecl]; exact hc.2)
+    · cases h
+  | breakClose =>
+    simp only [Sys.step] at h
+    split at h
+    · rename_i hc
+      simp only [Option.some.injEq] at h
+      have := conv_breakClose T f hinv q (epa hc.1) (by rw [← ecl]; exact hc.2)
+      rw [← eps, h] at this
+      have h2 := congrArg Prod.snd h
+      simp only [finishing, List.nil_append] at h2
+      rw [← h2]; exact this
+    · cases h
+  | read r =>
+    simp only [Sys.step] at h
+    split at h
+    · rename_i hc
+      rw [eps] at h
+      split at h
+      · rename_i hs
+        simp only [Option.some.injEq] at h
+        have := conv_read_stop T f hinv q (epi hc) (.rune r) hs (hT f.ps r hs)
+        rw [h] at this
+        have h2 := congrArg Prod.snd h
+        simp only [finishing] at h2
+        rw [← h2]; exact this
+      · rename_i hs
+        simp only [Option.some.injEq, Prod.mk.injEq] at h; obtain ⟨rfl, rfl⟩ := h
+        exact conv_read_go T f hinv q (epi hc) (.rune r) (by simpa [stops] using hs)
+    · cases h
+  | readEnd =>
+    simp only [Sys.step] at h
+    split at h
+    · rename_i hc
+      rw [eps] at h
+      simp only [Option.some.injEq] at h
+      have := conv_read_stop T f hinv q (epi hc) .eof rfl rfl
+      rw [h] at this
+      have h2 := congrArg Prod.snd h
+      simp only [finishing] at h2
+      rw [← h2]; exact this
+    · cases h
+  | timerFire =>
+    simp only [Sys.step] at h
+    split at h
+    · rename_i hc
+      simp only [Option.some.injEq, Prod.mk.injEq] at h; obtain ⟨rfl, rfl⟩ := h
+      exact conv_timerFire T f hinv q (by rw [← ear]; exact hc.1) (epi hc.2)
+    · cases h
+  | timerExpire =>
+    simp only [Sys.step] at h
+    split at h
+    · rename_i hc
+      simp only [Option.some.injEq, Prod.mk.injEq] at h; obtain ⟨rfl, rfl⟩ := h
+      exact conv_timerExpire T f hinv q (by rw [← ear]; exact hc)
+    · cases h
+  | cbRun fresh =>
+    cases fresh with
+    | true =>
+      simp only [Sys.step] at h
+      split at h
+      · rename_i hc
+        simp only [Option.some.injEq, Prod.mk.injEq] at h; obtain ⟨rfl, rfl⟩ := h
+        have := conv_cbRun_fresh T f hinv q (by rw [efr] at hc; simpa using hc)
+        simpa [Cfg.fixed] using this
+      · cases h
+    | false =>
+      simp only [Sys.step, Cfg.fixed, if_true] at h
+      split at h
+      · rename_i hc
+        simp only [Option.some.injEq, Prod.mk.injEq] at h; obtain ⟨rfl, rfl⟩ := h
+        exact conv_cbRun_stale T f q (by rw [← est]; exact hc)
+      · cases h
+
+theorem frun_append (T : Table) (ls1 ls2 : List FLabel) (s s1 s2 : FSys) (o1 o2 : List Seq)
+    (h1 : FSys.run T s ls1 = some (s1, o1)) (h2 : FSys.run T s1 ls2 = some (s2, o2)) :
+    FSys.run T s (ls1 ++ ls2) = some (s2, o1 ++ o2) := by
+  induction ls1 generalizing s o1 with
+  | nil =>
+    simp only [FSys.run, Option.some.injEq, Prod.mk.injEq] at h1; obtain ⟨rfl, rfl⟩ := h1
+    simpa using h2
+  | cons l ls ih =>
+    simp only [FSys.run] at h1
+    cases hs : FSys.step T s l with
+    | none => simp [hs] at h1
+    | some r =>
+      obtain ⟨s', o'⟩ := r
+      simp only [hs] at h1
+      cases hr : FSys.run T s' ls with
+      | none => simp [hr] at h1
+      | some r2 =>
+        obtain ⟨s'', o''⟩ := r2
+        simp only [hr, Option.some.injEq, Prod.mk.injEq] at h1; obtain ⟨rfl, rfl⟩ := h1
+        have := ih s' o'' hr
+        simp [FSys.run, hs, this, List.append_assoc]
+
+theorem conv_run (T : Table) (hT : TimerOk T) (ls : List Label) (f : FSys) (hinv : FInv f) (q : Quiet f)
+    (a' : Sys) (oa : List Seq) (h : Sys.run T Cfg.fixed (absQ T f) ls = some (a', oa)) :
+    ∃ fls f', FSys.run T f fls = some (f', oa) ∧ Quiet f' ∧ a' = absQ T f' := by
+  induction ls generalizing f oa with
+  | nil =>
+    simp only [Sys.run, Option.some.injEq, Prod.mk.injEq] at h; obtain ⟨rfl, rfl⟩ := h
+    exact ⟨[], f, rfl, q, rfl⟩
+  | cons l ls ih =>
+    simp only [Sys.run] at h
+    cases h1 : Sys.step T Cfg.fixed (absQ T f) l with
+    | none => simp [h1] at h
+    | some r1 =>
+      obtain ⟨a1, o1⟩ := r1
+      simp only [h1] at h
+      cases h2 : Sys.run T Cfg.fixed a1 ls with
+      | none => simp [h2] at h
+      | some r2 =>
+        obtain ⟨a2, o2⟩ := r2
+        simp only [h2, Option.some.injEq, Prod.mk.injEq] at h
+        obtain ⟨rfl, rfl⟩ := h
+        obtain ⟨fls1, f1, hr1, q1, e1⟩ := conv_step T hT f hinv q l a1 o1 h1
+        subst e1
+        obtain ⟨fls2, f2, hr2, q2, e2⟩ := ih f1 (run_inv T hT fls1 f f1 o1 hinv hr1) q1 o2 h2
+        exact ⟨fls1 ++ fls2, f2, frun_append T fls1 fls2 f f1 f2 o1 o2 hr1 hr2, q2, e2⟩
+
+theorem quiet_init : Quiet FSys.init := ⟨rfl, Or.inl rfl, by simp [FSys.init]⟩
+
+theorem absQ_init (T : Table) : absQ T FSys.init = Sys.init := abs_init T
+
 end VaxisModel.Lemmas.ParserRunFine
